@@ -59,7 +59,7 @@ def run(ctx):
     fa = R + 'is_uri_allowed'
     if ctx.require(prog.has(fa), fa):
         s, dnf = T.truth_dnf(fa)
-        ok = dnf is not None and len(dnf) > 0 and all(any(re.match(r'^HostPattern::matches\(.*,uri\)$', l) for l in c) for c in dnf)
+        ok = dnf is not None and len(dnf) > 0 and all(any(re.match(r'^HostPattern::matches\(.*,uri\)$', l) or re.match(r'^Iterator::any\[[^\]]*HostPattern::matches\([^\]]*uri\)[^\]]*\]\(', l) for l in c) for c in dnf)
         ctx.analysed(fa)
         ctx.ob('C26-D2', fa, 'return true', 'some pattern.matches(uri) = true', ok, detail='truth condition: ' + s)
     fm = R + 'RestrictedResolver::<T>::is_uri_allowed'
@@ -72,6 +72,8 @@ def run(ctx):
     hm = R + 'HostPattern::matches'
     if ctx.require(prog.has(hm), hm):
         s, dnf = T.truth_dnf(hm)
+        from terms import expand_dnf
+        dnf = expand_dnf(T, dnf)      # a sub-test extracted into a private predicate is read through
         ctx.analysed(hm)
         ok_shape = dnf is not None and len(dnf) > 0
         ctx.ob('C26-D3', hm, 'truth condition', 'computable', ok_shape, detail=s[:300])
@@ -292,23 +294,28 @@ def run(ctx):
                 if len(wr) < 2:
                     continue
                 for d in sorted(wr):
-                    avoid_edges = set()
+                    ok3 = True
                     for bi3, b in enumerate(rf.B):
                         t3 = b['t']
-                        if t3['k'] == 'switch':
-                            term = T.op_term(rf, t3['d'])
-                            for o3 in rf.origins(t3['d']):
-                                inner = o3[1] if o3[0] in ('discr', 'not') and len(o3) > 1 else o3
-                                try:
-                                    term += ' ' + T.origin_term(rf, inner)[0]
-                                except Exception:
-                                    pass
-                            other = [d2 for d2 in derived if d2 != d and re.search(r'self\.%s\b' % re.escape(d2), term)]
-                            if other:
-                                for v, tb in t3['ts']:
-                                    avoid_edges.add((bi3, tb))
-                    r3 = rf.reachable(0, avoid_edges=avoid_edges)
-                    ok3 = any(w in r3 for w in wr[d])
+                        if t3['k'] != 'switch':
+                            continue
+                        term = T.op_term(rf, t3['d'])
+                        for o3 in rf.origins(t3['d']):
+                            inner = o3[1] if o3[0] in ('discr', 'not') and len(o3) > 1 else o3
+                            try:
+                                term += ' ' + T.origin_term(rf, inner)[0]
+                            except Exception:
+                                pass
+                        other = [d2 for d2 in derived if d2 != d and re.search(r'self\.%s\b' % re.escape(d2), term)]
+                        if not other or not any(w in rf.reachable(bi3) for w in wr[d]) and not any(rf.dominates(bi3, w) for w in wr[d]):
+                            continue
+                        # the write of self.<d> lies after (or under) a test of another cache: every arm of that test must still reach it
+                        arms = [tb for v, tb in t3['ts']] + [t3['o']]
+                        for tb in arms:
+                            if rf.B[tb]['t']['k'] in ('unreachable', 'stop'):
+                                continue
+                            if not any(w in rf.reachable(tb) for w in wr[d]):
+                                ok3 = False
                     ctx.ob('C26-D6', rname, 'reset of self.%s' % d, 'independent of the state of the other derived caches', ok3,
                            detail='' if ok3 else 'self.%s is only reset inside a branch that tests another cache: with a custom resolver on that side the stale default stack (old allow-list) survives a settings change' % d,
                            site=loc(rf.d['span']))
